@@ -69,12 +69,38 @@ func machines(w *World) []*machine {
 			continue
 		}
 		m := &machine{name: rt.Obj().Name(), stateT: nt, recvT: rt}
+		// the machine's own methods and those promoted from structs it embeds
+		recvTypes := []types.Type{pt}
+		var flat []*types.Var // fields, embedded structs flattened
+		var flatten func(st *types.Struct)
+		flatten = func(st *types.Struct) {
+			for i := 0; i < st.NumFields(); i++ {
+				f := st.Field(i)
+				if f.Embedded() {
+					if es, ok := f.Type().Underlying().(*types.Struct); ok {
+						recvTypes = append(recvTypes, types.NewPointer(f.Type()))
+						flatten(es)
+						continue
+					}
+				}
+				flat = append(flat, f)
+			}
+		}
+		flatten(rt.Underlying().(*types.Struct))
+		isRecv := func(t types.Type) bool {
+			for _, r := range recvTypes {
+				if types.Identical(t, r) {
+					return true
+				}
+			}
+			return false
+		}
 		for _, fn := range libFuncs(w) {
 			s := fn.Signature
 			if s.Recv() == nil && s.Params().Len() == 1 && s.Results().Len() == 1 && types.Identical(s.Params().At(0).Type(), pt) && types.Identical(s.Results().At(0).Type(), nt) {
 				m.states = append(m.states, fn)
 			}
-			if s.Recv() != nil && types.Identical(s.Recv().Type(), pt) {
+			if s.Recv() != nil && isRecv(s.Recv().Type()) {
 				if s.Results().Len() == 1 && types.Identical(s.Results().At(0).Type(), nt) {
 					m.helpers = append(m.helpers, fn)
 				}
@@ -98,9 +124,7 @@ func machines(w *World) []*machine {
 				}
 			}
 		}
-		st := rt.Underlying().(*types.Struct)
-		for i := 0; i < st.NumFields(); i++ {
-			f := st.Field(i)
+		for _, f := range flat {
 			switch {
 			case typeName(f.Type()) == "token" || (m.isLexer && typeName(f.Type()) == "rune" || f.Type().String() == "int32"):
 				if m.tokF == "" {
@@ -187,7 +211,14 @@ func selfKey(t *T, recv string) string {
 // lookTok: t is the look-ahead token/rune storage self.tokF (any epoch).
 func (m *machine) lookTok(t *T) bool {
 	t = stripConv(t)
-	return t != nil && t.Op == "sel" && t.S == m.tokF && t.A[0].Op == "deref" && t.A[0].A[0].Op == "p"
+	if t == nil || t.Op != "sel" || t.S != m.tokF {
+		return false
+	}
+	b := t.A[0]
+	for b.Op == "sel" {
+		b = b.A[0] // a field of a struct the machine embeds
+	}
+	return b.Op == "deref" && b.A[0].Op == "p"
 }
 
 // lookTyp: t is self.tokF.typ
